@@ -27,12 +27,16 @@ use std::time::Instant;
 type BoxFut = futures::future::BoxFuture<'static, ()>;
 
 struct Task {
+  id: i64,
   fut: Mutex<Option<BoxFut>>,
   /// woken while another worker was polling it: that worker re-queues it
   notified: AtomicBool,
   q: Arc<Pool>,
 }
+/// log id of the pool's own events: task_spawn / task_begin / task_ready / task_pending (value = task id)
+pub const TASK_EV: u32 = 2900;
 pub struct Pool {
+  log: Mutex<Option<Log>>,
   ready: Mutex<VecDeque<Arc<Task>>>,
   live: AtomicUsize,
   spawned: AtomicUsize,
@@ -44,16 +48,25 @@ impl ArcWake for Task {
 }
 impl Pool {
   pub fn new() -> Arc<Pool> {
-    Arc::new(Pool { ready: Mutex::new(VecDeque::new()), live: AtomicUsize::new(0), spawned: AtomicUsize::new(0) })
+    Arc::new(Pool { log: Mutex::new(None), ready: Mutex::new(VecDeque::new()), live: AtomicUsize::new(0), spawned: AtomicUsize::new(0) })
   }
   pub fn scheduler(self: &Arc<Self>) -> VerifSchedulerThreads {
     let p = self.clone();
     VerifSchedulerThreads(Arc::new(move |f| {
       p.live.fetch_add(1, Ordering::SeqCst);
-      p.spawned.fetch_add(1, Ordering::SeqCst);
-      let t = Arc::new(Task { fut: Mutex::new(Some(f)), notified: AtomicBool::new(false), q: p.clone() });
+      let id = p.spawned.fetch_add(1, Ordering::SeqCst) as i64 + 1;
+      p.ev("task_spawn", id);
+      let t = Arc::new(Task { id, fut: Mutex::new(Some(f)), notified: AtomicBool::new(false), q: p.clone() });
       p.ready.lock().unwrap_or_else(|e| e.into_inner()).push_back(t);
     }))
+  }
+  pub fn set_log(&self, log: &Log) {
+    *self.log.lock().unwrap_or_else(|e| e.into_inner()) = Some(log.clone());
+  }
+  fn ev(&self, what: &'static str, id: i64) {
+    if let Some(l) = &*self.log.lock().unwrap_or_else(|e| e.into_inner()) {
+      l.mark(TASK_EV, what, id);
+    }
   }
   /// pop any ready task (position chosen by `pick`) and poll it once
   pub fn run_one(self: &Arc<Self>, pick: usize) -> bool {
@@ -76,7 +89,10 @@ impl Pool {
     if let Some(mut f) = fut {
       let w = waker(t.clone());
       let mut cx = Context::from_waker(&w);
-      match f.as_mut().poll(&mut cx) {
+      self.ev("task_begin", t.id);
+      let r = f.as_mut().poll(&mut cx);
+      self.ev(if r.is_ready() { "task_ready" } else { "task_pending" }, t.id);
+      match r {
         Poll::Ready(()) => {
           self.live.fetch_sub(1, Ordering::SeqCst);
         }
@@ -159,6 +175,7 @@ pub fn run_scen(s: &Scen, seed: u64, strategy: Strategy) -> Outcome {
   crate::vtime::reset();
   let log = Log::new();
   let pool = Pool::new();
+  pool.set_log(&log);
   let hot: Vec<SubjectThreads<V, E>> = (0..s.n_hot).map(|_| SubjectThreads::default()).collect();
   let beh = BehaviorSubject::<V, SubjectThreads<V, E>>::new(V::I(5));
   let cx = threads::Ctx { hot: hot.clone(), stash: StashT::default(), sched: pool.scheduler(), log: log.clone(), base: Instant::now() };
@@ -554,6 +571,237 @@ pub fn interval_oracle(o: &Outcome, s: &Scen) -> Option<(String, serde_json::Val
     return Some(("producer_not_retired".into(), show("the periodic task or its timer is still alive after the stream ended and the scheduler ran until idle".into())));
   }
   None
+}
+
+/// C09 (thread part), debounce and throttle_time: linearizability against the
+/// sequential operator model with the timer tasks as operations. Operations:
+/// every source call (next / complete / error, interval = call..return) and
+/// every poll of a scheduled task that finished it (`End`, interval = the poll,
+/// on the worker thread). A delivery to the probe belongs to the operation of
+/// the same thread whose interval contains it. Some total order of the
+/// operations that respects their real-time order must make the model emit,
+/// operation by operation, exactly what was observed inside that operation.
+pub fn rate_linearizable(o: &Outcome, s: &Scen) -> Option<(String, serde_json::Value)> {
+  #[derive(Clone, Debug)]
+  enum OpK {
+    Item(i64),
+    Complete,
+    Error,
+    End(i64),
+  }
+  #[derive(Clone, Debug)]
+  struct OpRec {
+    k: OpK,
+    thread: u32,
+    begin: u64,
+    end: u64,
+    out: Vec<N>,
+    spawned: Vec<i64>,
+  }
+  let op = match &s.kind {
+    Kind::Pipe(c) => c.ops.first().cloned(),
+    _ => None,
+  };
+  let (is_debounce, edge) = match op {
+    Some(Op::Debounce(_)) => (true, None),
+    Some(Op::ThrottleTime(_, e)) => (false, Some(e)),
+    _ => return None,
+  };
+  if s.threads.iter().flatten().any(|t| matches!(t, TOp::Unsub(_) | TOp::Subscribe | TOp::UnsubSubject)) || o.baton.timed_out {
+    return None;
+  }
+  // collect operations
+  let mut ops: Vec<OpRec> = vec![];
+  let mut open: std::collections::HashMap<(u32, &'static str, i64), u64> = Default::default();
+  for e in &o.evs {
+    if let K::Mark(w, v) = e.k {
+      match w {
+        "next_call" | "term_call" | "task_begin" => {
+          open.insert((e.thread, w, v), e.seq);
+        }
+        "next_ret" => {
+          if let Some(b) = open.remove(&(e.thread, "next_call", v)) {
+            ops.push(OpRec { k: OpK::Item(v), thread: e.thread, begin: b, end: e.seq, out: vec![], spawned: vec![] });
+          }
+        }
+        "term_ret" => {
+          if let Some(b) = open.remove(&(e.thread, "term_call", v)) {
+            // which terminal: look at the script of that thread
+            let is_c = s.threads.iter().flatten().any(|t| matches!(t, TOp::Complete(_)));
+            let is_e = s.threads.iter().flatten().any(|t| matches!(t, TOp::Error(_)));
+            if is_c && is_e {
+              return None; // both kinds scripted: attribution by value is ambiguous, skip
+            }
+            ops.push(OpRec { k: if is_c { OpK::Complete } else { OpK::Error }, thread: e.thread, begin: b, end: e.seq, out: vec![], spawned: vec![] });
+          }
+        }
+        "task_ready" => {
+          if let Some(b) = open.remove(&(e.thread, "task_begin", v)) {
+            ops.push(OpRec { k: OpK::End(v), thread: e.thread, begin: b, end: e.seq, out: vec![], spawned: vec![] });
+          }
+        }
+        "task_pending" => {
+          open.remove(&(e.thread, "task_begin", v));
+        }
+        _ => {}
+      }
+    }
+  }
+  if !open.is_empty() {
+    return None; // a call did not return: other oracles report that
+  }
+  // attribute deliveries and spawns
+  for e in &o.evs {
+    let attr = |ops: &mut Vec<OpRec>| ops.iter_mut().position(|r| r.thread == e.thread && r.begin < e.seq && e.seq < r.end);
+    match &e.k {
+      K::N(n) if e.id == 1 => match attr(&mut ops) {
+        Some(i) => ops[i].out.push(n.clone()),
+        None => return Some(("delivery_outside_any_operation".into(), json!({"why": format!("{:?} was delivered at stamp {} on thread {} outside every source call and task run", n, e.seq, e.thread)}))),
+      },
+      K::Mark("task_spawn", id) => {
+        if let Some(i) = attr(&mut ops) {
+          ops[i].spawned.push(*id);
+        }
+      }
+      _ => {}
+    }
+  }
+  // the search
+  #[derive(Clone)]
+  struct St {
+    value: Option<i64>,
+    live: Vec<i64>,
+    done: bool,
+  }
+  fn step(is_debounce: bool, edge: Option<Edge>, st: &mut St, r: &OpRec) -> Option<Vec<N>> {
+    let (leading, tailing) = match edge {
+      Some(Edge::Leading) => (true, false),
+      Some(Edge::Trailing) => (false, true),
+      Some(Edge::All) => (true, true),
+      None => (false, false),
+    };
+    match &r.k {
+      OpK::Item(v) => {
+        if st.done {
+          return if r.spawned.is_empty() || true { Some(vec![]) } else { None };
+        }
+        if is_debounce {
+          st.value = Some(*v);
+          // the newest item's task is the only live one
+          if r.spawned.len() != 1 {
+            return None;
+          }
+          st.live = r.spawned.clone();
+          Some(vec![])
+        } else {
+          let was_open = !st.live.is_empty();
+          let mut out = vec![];
+          if tailing {
+            st.value = Some(*v);
+          }
+          if !was_open {
+            // a new window opens with this item: its task must have been scheduled
+            if r.spawned.is_empty() {
+              return None;
+            }
+            if leading {
+              st.value = None;
+              out.push(N::Next(V::I(*v)));
+            }
+          }
+          st.live.extend(r.spawned.iter().cloned());
+          Some(out)
+        }
+      }
+      OpK::End(k) => {
+        if let Some(p) = st.live.iter().position(|x| x == k) {
+          st.live.remove(p);
+          if st.done {
+            return Some(vec![]);
+          }
+          Some(st.value.take().map(|v| N::Next(V::I(v))).into_iter().collect())
+        } else {
+          // cancelled (or superseded) task: its poll does nothing
+          Some(vec![])
+        }
+      }
+      OpK::Complete => {
+        if st.done {
+          return Some(vec![]);
+        }
+        st.done = true;
+        let mut out: Vec<N> = vec![];
+        if is_debounce || tailing {
+          if let Some(v) = st.value.take() {
+            out.push(N::Next(V::I(v)));
+          }
+        }
+        if !is_debounce {
+          st.live.clear();
+        }
+        out.push(N::Complete);
+        Some(out)
+      }
+      OpK::Error => {
+        if st.done {
+          return Some(vec![]);
+        }
+        st.done = true;
+        if !is_debounce {
+          st.live.clear();
+        }
+        None.or(Some(vec![N::Err(0)]))
+      }
+    }
+  }
+  fn same(a: &[N], b: &[N]) -> bool {
+    a.len() == b.len() && a.iter().zip(b).all(|(x, y)| match (x, y) {
+      (N::Err(_), N::Err(_)) => true,
+      _ => x == y,
+    })
+  }
+  fn search(is_debounce: bool, edge: Option<Edge>, ops: &[OpRec], used: &mut Vec<bool>, st: &St, budget: &mut usize) -> bool {
+    if used.iter().all(|u| *u) {
+      return true;
+    }
+    if *budget == 0 {
+      return true; // search budget exhausted: no verdict (treated as held)
+    }
+    *budget -= 1;
+    for i in 0..ops.len() {
+      if used[i] {
+        continue;
+      }
+      // minimal in the real-time order among the unused ones
+      if (0..ops.len()).any(|j| !used[j] && j != i && ops[j].end < ops[i].begin) {
+        continue;
+      }
+      let mut st2 = st.clone();
+      if let Some(out) = step(is_debounce, edge, &mut st2, &ops[i]) {
+        if same(&out, &ops[i].out) {
+          used[i] = true;
+          if search(is_debounce, edge, ops, used, &st2, budget) {
+            used[i] = false;
+            return true;
+          }
+          used[i] = false;
+        }
+      }
+    }
+    false
+  }
+  let mut used = vec![false; ops.len()];
+  let mut budget = 200_000usize;
+  let st = St { value: None, live: vec![], done: false };
+  if search(is_debounce, edge, &ops, &mut used, &st, &mut budget) {
+    None
+  } else {
+    Some((
+      "not_linearizable".into(),
+      json!({"why": "no order of the source calls and timer-task runs that respects their real-time order makes the sequential operator model emit what each of them was seen to emit",
+             "operations": ops.iter().map(|r| format!("t{} [{}..{}] {:?} emitted {:?} scheduled {:?}", r.thread, r.begin, r.end, r.k, r.out, r.spawned)).collect::<Vec<_>>()}),
+    ))
+  }
 }
 
 /// C02: nothing *begins* on a probe after its unsubscribe() returned
@@ -1171,6 +1419,7 @@ pub fn run_scen_free_mode(s: &Scen, mode: u8, seed: u64) -> Outcome {
   crate::vtime::reset();
   let log = Log::new();
   let pool = Pool::new();
+  pool.set_log(&log);
   let hot: Vec<SubjectThreads<V, E>> = (0..s.n_hot).map(|_| SubjectThreads::default()).collect();
   let beh = BehaviorSubject::<V, SubjectThreads<V, E>>::new(V::I(5));
   let cx = threads::Ctx { hot: hot.clone(), stash: StashT::default(), sched: pool.scheduler(), log: log.clone(), base: Instant::now() };
